@@ -502,6 +502,8 @@ func init() {
 		c17Conds(s, e, cf, "toLowerCaseKeyMap", "lowerMapCond")
 		c17Conds(s, e, cf, "LoadFromJsonBytes", "loadJsonCond")
 		c17Detail(s, e, cf, "getTagName", "cGetTagName")
+		c17Detail(s, e, cf, "LoadConfigFromJsonBytes", "cLoadConfigJson")
+		c17Detail(s, e, cf, "LoadConfigFromYamlBytes", "cLoadConfigYaml")
 		c17Conds(s, e, cf, "getTagName", "tagNameCond")
 	})
 }
